@@ -92,6 +92,22 @@ Proof.
 Qed.
 Print Assumptions C23_signed_over.
 
+(** Audit follow-up: [C23_signed_over] is the record [extend] builds; what ties it to the code is the
+    correspondence check, which since then compares the identities of the byte strings the real signer
+    was handed ([CExt2]: random identity numbers per earlier entry) with this list: the segment info
+    first, then HeaderAndBody and Signature of every earlier entry, in segment order. *)
+Theorem C23_signed_over_assoc : forall mac c signers gen_err now s ingress egress peers e idx sg,
+  extend mac c signers gen_err now s ingress egress peers = Ok e idx sg ->
+  assoc_ids (sg_prev sg) = 0%N :: flat_map (fun x => [fst (snd x); snd (snd x)]) (s_entries s) /\
+  ids_oracle s (obs_of (Ok e idx sg)) (assoc_ids (sg_prev sg)) = true.
+Proof.
+  intros mac c signers gen_err now s ingress egress peers e idx sg H.
+  rewrite (C23_signed_over _ _ _ _ _ _ _ _ _ _ _ _ H). cbn [sg_prev obs_of ids_oracle]. split.
+  - unfold assoc_ids. f_equal. induction (s_entries s) as [|x t IH]; [reflexivity|]. cbn. now rewrite IH.
+  - apply list_N_eqb_refl.
+Qed.
+Print Assumptions C23_signed_over_assoc.
+
 (** Extension fails when ingress/egress are inconsistent with the entry's
     position: zero ingress on a non-empty segment, non-zero ingress on an empty
     one, or both zero. *)
